@@ -26,6 +26,18 @@ def step (s : St) : List String → St × String
     match n.toNat? with
     | some k => (s, if Gen.RecordIO.sizeOk k then "ok" else "err:check")
     | none => (s, "bad-op")
+  | ["bigrt", spec] =>
+    -- a large record given by segments (`m` = magic word, `x<n>` / `r<n>` = n bytes), too large to execute on
+    -- lists: the answer is the statement of C01_roundtrip / C01_reject_large for a record of that length
+    let segLen (seg : String) : Option Nat :=
+      if seg == "m" then some 4
+      else if seg.startsWith "x" || seg.startsWith "r" then (seg.drop 1).toNat?
+      else none
+    match (spec.splitOn "+").mapM segLen with
+    | some ls =>
+      let n := ls.foldl (· + ·) 0
+      (s, if Gen.RecordIO.sizeOk n then s!"ok {n}" else "err:check")
+    | none => (s, "bad-op")
   | ["raw", h] =>
     match bytesOfHex h with
     | none => (s, "bad-op")
